@@ -607,8 +607,12 @@ static int ec_write(char *loc, char *cmd, char *arg, char *txt)
 		bufs[0].path = uc_dup(path);
 		reg_put('%', path, 0);
 	}
-	if (!strcmp(ex_path(), path))
-		lbuf_saved(xb, 0);
+	if (!strcmp(ex_path(), path)) {
+		if (beg == 0 && end == lbuf_len(xb))
+			lbuf_saved(xb, 0);
+		else
+			lbuf_unsaved(xb);
+	}
 	if (!strcmp(ex_path(), path))
 		bufs[0].mtime = mtime(path);
 	return 0;
